@@ -191,6 +191,10 @@ func c01(w *core.World, r *core.Report) {
 	// ---- OLD-PRIO-DELETE (shared with C02): a version left under the old priority stays live for the merge
 	ruleOldPrioDelete(w, r, low)
 
+	// ---- APPLY-SENDS (shared with C03)
+	r.Rule("APPLY-SENDS", 2, "Datastore.applyIntent returns success only after target.Target.Set was called with the tree it was given: the computed deletes and updates reach the device whenever the stores are rewritten.")
+	ruleApplySends(w, r, "APPLY-SENDS")
+
 	// ---- SINGLE-WRITER
 	r.Rule("SINGLE-WRITER", 3, "who-may-call over the whole repository: target.Target.Set only from Datastore.applyIntent; applyIntent only from lowlevelTransactionSet and replaceIntent; cache.Client.Modify with Store_INTENDED only from lowlevelTransactionSet.")
 	for _, c := range w.CallersOfKey(kTargetSet) {
